@@ -32,7 +32,7 @@ func addFamily(name string, weight int, run func(c *hx.Ctx, r *hx.Rng, st *state
 }
 
 func Run(c *hx.Ctx) error {
-	c.Stats.Rule = "generated column segments per codec: ints/times (constant, const-delta, small deltas of every simple8b width, runs of ones around 120/240, int64 extremes, overflowing deltas, decimal-scaled jitter, deltas at simple8b.MaxValue, random 64-bit; lengths 0..3200), floats as bit patterns (constant incl. -0.0/NaN/Inf, signed zeros, runs, integers, decimals, NaN payloads, +-Inf, subnormals, overflowing sums, runs beyond RLEBlockLimit, >65535 equal rows), bools, strings (empty, 64 KiB, incompressible; snappy/zstd/lz4), simple8b value lists, WAL files (0-3 records + torn / header-only / damaged tail, stale pooled buffer), whole files through a real shard (null patterns, 1-3 segments, reopen); each case is encoded by the real code, the exact bytes (library payloads: frame + observed length) compared with the Lean model, decoded by the real code (round trip = spec) and by the model; non-trivial = a non-raw mode was chosen or the input carries an extreme value / torn tail / reopen; distinct by op line"
+	c.Stats.Rule = "generated column segments per codec: ints/times (constant, const-delta, small deltas of every simple8b width, runs of ones around 120/240, int64 extremes, overflowing deltas, decimal-scaled jitter, deltas at simple8b.MaxValue, random 64-bit; lengths 0..3200), floats as bit patterns (constant incl. -0.0/NaN/Inf, signed zeros, runs, integers, decimals, NaN payloads, +-Inf, subnormals, overflowing sums, runs beyond RLEBlockLimit, >65535 equal rows), bools, strings (empty, 64 KiB, incompressible; snappy/zstd/lz4), simple8b value lists, WAL files (0-3 records + torn / header-only / damaged tail, stale pooled buffer), column segments through the chunk encoder of a flush and the file reader's segment decoder (int/float/bool/string + time; 1 row, seg-1, seg, seg+1, k*seg+1 rows; no/all/alternating/sparse/first/last nulls; empty strings, 15/16/17-byte strings, one value repeated; segment sizes 8..64, 1000 and not multiples of eight = validity bits at a bit offset), whole files through a real shard (null patterns, 1-3 segments, single-row series, k*1000+1 rows with a lone \"\" / null / zero last row, reopen); each case is encoded by the real code, the exact bytes (library payloads: frame + observed length) compared with the Lean model, decoded by the real code (round trip = spec) and by the model; non-trivial = a non-raw mode was chosen or the input carries an extreme value / torn tail / reopen; distinct by op line"
 	n := c.Budget(40000, 1500000)
 	// hx seeds are offsets into one splitmix sequence (seed+2 replays seed shifted by a case):
 	// re-seed from a mixed value so that different seeds give unrelated runs
@@ -64,10 +64,6 @@ func Run(c *hx.Ctx) error {
 	if total == 0 && nFiles == 0 {
 		return fmt.Errorf("no family matches %q", only)
 	}
-	for i := 0; i < nFiles; i++ {
-		runFile(c, r.Fork(), st)
-		c.Count("family:file")
-	}
 	for i := 0; i < n; i++ {
 		k := r.Intn(total)
 		for _, f := range families {
@@ -81,6 +77,12 @@ func Run(c *hx.Ctx) error {
 			}
 			k -= f.weight
 		}
+	}
+	// whole-file cases last: a regression in the segment framing is then reported first by the
+	// `colseg` case that shows the exact column
+	for i := 0; i < nFiles; i++ {
+		runFile(c, r.Fork(), st)
+		c.Count("family:file")
 	}
 	return nil
 }
